@@ -187,8 +187,32 @@ let sched_case (clock0 : string) (budgets : string) (tasks : string list) : stri
       String.concat ";" (List.map show_r rs) ^ " | clock=" ^ (string_of_int (int_of_n dv.clock)) ^ " | " ^
       String.concat "," (List.map (fun (c, t) -> string_of_int (int_of_n c) ^ ":" ^ string_of_int (int_of_n t)) dv.log)
 
+(* ---- memory bus ----------------------------------------------------------------------- *)
+(* cfg: card=<present>,<writable>,<len>;absent=<0|1>;mirror=<0|1>;ro=<s>-<e>+...;ov=<start>:<end>:<datalen>:<ro>:<id>+... *)
+let parse_memcfg (rust : bool) (s : string) : config =
+  let fields = List.map (fun f -> match split_on '=' f with [k; v] -> (k, v) | [k] -> (k, "") | _ -> failwith "cfg") (split_on ';' s) in
+  let get k = try List.assoc k fields with Not_found -> "" in
+  let card = match split_on ',' (get "card") with [p; w; l] -> (s2b p, s2b w, n_of_int (ios l)) | _ -> (true, true, n_of_int 65536) in
+  let parse_ov t = match split_on ':' t with
+    | [st; en; dl; ro; id] -> { o_start = n_of_int (ios st); o_end = n_of_int (ios en); o_id = n_of_int (ios id);
+                                o_kind = KData (n_of_int (ios dl), s2b ro) }
+    | _ -> failwith "ov" in
+  let ovs = if get "ov" = "" then [] else List.map parse_ov (split_on '+' (get "ov")) in
+  let ros = if get "ro" = "" then [] else List.map (fun r -> match split_on '-' r with [a; b] -> (n_of_int (ios a), n_of_int (ios b)) | _ -> failwith "ro") (split_on '+' (get "ro")) in
+  let (cp, cw, cl) = card in
+  { ovls = (if rust && get "absent" = "1" then mem_card_slot :: ovs else ovs);
+    card_present = cp; card_writable = cw; card_len = cl; mirror = (get "mirror" = "1"); ro_ranges = ros }
+
+let parse_mop (s : string) : mop =
+  match split_on ':' s with
+  | ["l"; a; b] -> MLoad (n_of_int (ios a), n_of_int (ios b))
+  | ["s"; a; b; v] -> MStore (n_of_int (ios a), n_of_int (ios b), n_of_int (ios v))
+  | _ -> failwith ("bad mem op " ^ s)
+
 let handle (w : string list) : string =
   match w with
+  | "mem_py" :: cfg :: ops -> show_nl (mem_py_run (parse_memcfg false cfg) (List.map parse_mop ops))
+  | "mem_rs" :: cfg :: ops -> show_nl (mem_rs_run (parse_memcfg true cfg) (List.map parse_mop ops))
   | "sched" :: clock0 :: budgets :: tasks -> sched_case clock0 budgets tasks
   | "kbd_py" :: pt :: rt :: dl :: iv :: ah :: re :: _irq :: ops ->
       show_nll (kbd_py_run (kcfg_of pt rt dl iv ah re) (List.map parse_kop ops))
